@@ -71,8 +71,8 @@ def simulator_clause_case(rng, cls, n, given=None):
     if given is None:
         ops, labels = W.random_ops(rng, cls, n, rng.randint(3, 10))
         ops = [op for op in ops if op[0] not in ("measure", "delay")]
-        m = rng.randint(1, n)
-        fed_by = rng.sample(labels, m)                           # classical bit k is fed by qubit fed_by[k]
+        m = rng.randint(min(3, n), n)                            # three or more measured qubits whenever the register allows it
+        fed_by = rng.sample(labels, m)                           # classical bit k is fed by qubit fed_by[k]: any permutation
         ops += [["measure", q, k] for k, q in enumerate(fed_by)]
     else:
         ops = given
@@ -117,6 +117,12 @@ def gen_cases(ctx):
     # corpus of past / designed cases first
     cases += [(1, [("1", 3)]), (1, [("0", 2)]), (2, [("01", 5)]), (3, [("110", 7), ("001", 5)]),
               (2, [("11", 1.5), ("00", -2)]), (3, [("000", 1), ("111", 2)])]
+    # "all values": exact rationals / decimals, integers beyond 2^53 and 2^63, an integer next to a float - unchanged, same type
+    from fractions import Fraction
+    from decimal import Decimal
+    cases += [(2, [("01", Fraction(1, 3)), ("10", Fraction(2, 3))]), (2, [("11", Decimal("0.1")), ("00", Decimal("0.9"))]),
+              (2, [("10", 2 ** 53 + 1), ("01", 0.5)]), (1, [("1", 2 ** 63 + 5)]), (3, [("101", 10 ** 30), ("010", 7)]),
+              (2, [("00", True), ("11", 3)])]
     # exhaustive small scope: every non-empty key subset, insertion order shuffled
     nmax = 4 if ctx.thorough else 3
     for n in range(1, nmax + 1):
@@ -167,8 +173,8 @@ def main(ctx):
                 oracle_fail.append((n, items, bad))
     sim_fail, sim_n = [], 0
     for cls in ("binary", "efficient", "grid"):
-        for _ in range(12 if ctx.thorough else 3):
-            n = ctx.rng.randint(2, 4)
+        for _ in range(12 if ctx.thorough else 5):
+            n = ctx.rng.randint(3, 4)
             ops, bad = simulator_clause_case(ctx.rng, cls, n); ctx.count(); sim_n += 1
             if bad:
                 sim_fail.append((cls, n, ops, bad))
